@@ -148,6 +148,8 @@ def _ops_other():
         "allometry": lambda m: pm.add_allometry(m, allometric_variable="WGT", reference_value=3.5),
         "iov": lambda m: pm.add_iov(m, "FA1", list_of_parameters=[m.random_variables.iiv.names[0]]),
         "iie": lambda m: pm.update_initial_individual_estimates(m, individual_estimates_table(m)),
+        # a derived data column: the dataset is replaced, so the data file and $INPUT are regenerated on write
+        "tad": pm.add_time_after_dose,
     }
     return ops
 
